@@ -28,6 +28,7 @@ type Obligation struct {
 	Pos     string
 	Msg     string
 	Theory  string // "bv", "int", "mixed"
+	Lowered string
 	Harness string
 	Case    string
 
